@@ -401,6 +401,21 @@ class Exec:
         for nm, e in self.c.requires.items():
             st.assume(self.spec_bool(e, st))
         self.vacuity(st, "requires")
+        for cname, pinned in self.c.pins.items():
+            # the language of a pattern constant is pinned by the contract: every text is in both languages or in neither (look-arounds / anchors
+            # erased on both sides).  A refutation carries a witness text, replayed with the real regex module on both patterns
+            from . import regex2smt as _R2
+
+            code_pat = getattr(self.mi.mod, cname, None)
+            if not isinstance(code_pat, bytes):
+                raise AnchorMismatch(f"{self.qualname}: the pinned pattern constant {cname} is not a bytes constant of {self.mi.name}")
+            la, _ = _R2.to_re(code_pat)
+            lb, _ = _R2.to_re(pinned)
+            self.assumed.add("language pins compare L(P°): look-arounds / anchors are erased on both sides, and both patterns go through the same regex-to-RegLan "
+                             "translation (trusted; a refutation's witness is confirmed with the real regex module before it is reported as a failing text)")
+            w = z3.String(f"pin_text__{cname}")
+            self.obligations.append(Obligation(f"{self.qualname}/pin/{cname}", [], z3.InRe(w, la) == z3.InRe(w, lb), self.qualname, "pin", fn.lineno, "unsat",
+                                               "language of the pattern constant == language pinned in the contract", {f"pin_text__{cname}": VBytes(w)}))
         self.cut_base = st.clone()
         results = self.exec_block(fn.body, st)
         # A cut point / assertion / statement-anchored hint whose statement is no longer in the source: the contract does not line up with the code any
